@@ -150,3 +150,25 @@ pub fn child(args: &[String]) -> i32 {
         }
     }
 }
+
+/// Families added to a check after its own bound description was written (kept in one place).
+pub fn bound_addendum(id: &str) -> &'static str {
+    match id {
+        "C01" => "every ordered pair of word sequences of length 0..2 (and blank texts) parsed back to back on one thread; every sequence of <= 4/5 words over (, ), !, ',', -a, -o, -true and one of ~80 special primaries (every vocabulary keyword with an argument; primaries whose argument word is an operator or keyword spelling), judged by the text-level reference",
+        "C02" => "the embedded 'now' must lie inside the compile call; patterns with quoted glob characters, star runs, non-ASCII letters; formats ending in several newlines or octal line ends",
+        "C03" | "C17" => "corpus additions: groups nested 1..64 deep as right / left operand of each operator with each kind of primary innermost; free-text arguments that look like numbers; two bounds on one attribute in both orders and equal products in different units; counts equal to the whole seconds / minutes / hours / days since the epoch and their neighbours; 10^2..1.5*10^5 characters that need escaping in one argument and in the device path (beyond the 4 KiB of the other families); a shard of the child sweep stops after two hangs or answers slower than 5 s (the rest of the shard is counted as skipped)",
+        "C08" => "the negation of every check for all 4096 masks x 3 kinds; every ordered pair of checks over 12 masks x 3 kinds under and / or / list, with a test in between, with either operand negated, the pair negated, parenthesised, each executed on modes directed at both masks; a history of refused arguments before accepted ones",
+        "C09" => "balanced trees of 4095..70000 -true tests and chains 4095..5000 deep with the only action last / first / absent (2 GiB stack); ~230 strings that spell pieces of generated code as arguments of action-free expressions, on files on which those tests hold",
+        "C10" => "formats whose ending only resembles a newline escape (two newlines, \\014, a literal backslash-n); second spellings of a file name (./f, f/, .//f)",
+        "C11" => "file names differing by //, /./, a trailing / or ending in the other action's terminator; patterns with star runs behind a backslash",
+        "C14" => "every ordered pair of ~55 documented elements and fragments; every sequence of 3..4 pieces over 13 fragments that form a directive only when read from the wrong place; formats of 1000, 4095..5000 and 65535..70000 elements, valid and with an invalid directive last; every Unicode scalar value (17 planes) after %, %A and a backslash",
+        "C15" => "56 time tests whose bound lies within a day of now compiled in fresh processes at five dates through the clock seam; SAMPLED, outside the bound: 16 threads parsing and compiling their own texts at once (1500 / 20000 rounds each)",
+        "C16" => "formats whose ending only resembles a line end (octal values congruent to 10, form feed, a literal backslash-n, two newlines); second spellings of a file name; the first action 4095..5000 operator levels below the root (model only, 2 GiB stack)",
+        "C18" => "offending words containing multi-character sequences (terminal control sequences, format directives, markup, combining marks, supplementary-plane characters); every Unicode scalar value (17 planes) as offending word; SAMPLED, outside the bound: 12 threads parsing their own invalid texts at once",
+        "C19" => "every way a format can end (512 octal values, literals that spell an escape, several newlines, each special before / after a newline); balanced trees of 4095..131073 leaves and chains 4095..5000 deep built of tests / of actions only / with the deciding leaf first or last (2 GiB stack); the same node queried before and after an in-place change, trees rebuilt in a loop",
+        "C20" => "every Unicode scalar value (17 planes) inside the device path; SAMPLED, outside the bound: one compiled value rendered by 10 threads for 10 devices at once",
+        "C04" => "file sites behind an action that needs no framing; every Unicode scalar value inside the user string (quick: Basic Multilingual Plane and every 16th scalar elsewhere at 5 sites; thorough: all scalars, every site); runs of 2..3 adjacent octal escapes over 12 values; ~230 strings harvested from generated code",
+        "C05" | "C06" | "C07" | "C12" | "C13" => "",
+        _ => "",
+    }
+}
